@@ -230,6 +230,10 @@ def run_check(engine, prop, tier, root, n_runs=None):
     b = engine.budget(prop, tier)
     if n_runs:
         b["runs"] = n_runs
+    if os.environ.get("VERIF_WALL"):
+        # optional lower wall cap (can only reduce the number of runs)
+        b["wall"] = min(b.get("wall") or 10 ** 9,
+                        core.env_int("VERIF_WALL", b.get("wall") or 3300))
     print(f"VERIF_SEED={root} property={prop} tier={tier} engine="
           f"{engine.NAME} runs={b['runs']} repo={REPO}")
     known = findings.Known(prop)
